@@ -46,6 +46,8 @@ pub fn write_float<F: RawFloat, const FORMAT: u128>(
     bytes: &mut [u8],
     options: &Options,
 ) -> usize {
+    #[cfg(lexical_verif)]
+    lexical_util::verif::hit(lexical_util::verif::WRITE_DECIMAL);
     debug_assert!(!float.is_special());
     debug_assert!(float >= F::ZERO);
 
